@@ -1756,30 +1756,25 @@ class DynDiGraph(nx.DiGraph):
         H.name = self.name
         H.add_nodes_from(self)
 
-        if reciprocal is True:
-            for u in self._node:
-                for v in self._node:
-                    if u >= v:
-                        try:
-                            outc = self._succ[u][v]['t']
-                            intc = self._pred[u][v]['t']
-                            for o in outc:
-                                r = set(range(o[0], o[1] + 1))
-                                for i in intc:
-                                    r2 = set(range(i[0], i[1] + 1))
-                                    inter = sorted(r & r2)
-                                    if len(inter) == 1:
-                                        H.add_interaction(u, v, t=inter[0])
-                                    elif len(inter) > 1:
-                                        H.add_interaction(u, v, t=inter[0], e=inter[-1] + 1)
+        # presence intervals of every unordered pair, keyed by the direction met first
+        spans = {}
+        for u, nbrs in self._succ.items():
+            for v, data in nbrs.items():
+                if (v, u) in spans:
+                    continue
+                out = data['t']
+                back = self._succ[v][u]['t'] if u in self._succ[v] else []
+                if reciprocal is True:
+                    # instants at which both directions are present
+                    spans[(u, v)] = [[max(o[0], i[0]), min(o[1], i[1])] for o in out for i in back
+                                     if max(o[0], i[0]) <= min(o[1], i[1])]
+                else:
+                    # instants at which either direction is present
+                    spans[(u, v)] = sorted(out + back)
 
-                        except Exception:
-                            pass
-
-        else:
-            for it in self.interactions_iter():
-                for t in it[2]['t']:
-                    H.add_interaction(it[0], it[1], t=t[0], e=t[1] + 1)
+        for (u, v), timeline in spans.items():
+            for a, b in timeline:
+                H.add_interaction(u, v, t=a, e=b + 1)
 
         H.graph = deepcopy(self.graph)
         H._node = deepcopy(self._node)
